@@ -28,7 +28,9 @@ Record config := mkCfg
 
 Definition idleRound : Z := 10.
 
-Inductive call := CAdd (t : task) (w : Z) | CFlush | CWait.
+(* CSync: Sync(fn) — fn runs under the executor's lock; it is the caller's code (it may look at
+   the container, e.g. BulkInserter sets fields of its dbInserter) and changes nothing here *)
+Inductive call := CAdd (t : task) (w : Z) | CFlush | CWait | CSync.
 
 (* program counter inside (pe *PeriodicalExecutor).Flush, whoever runs it *)
 Inductive fpc :=
@@ -46,7 +48,8 @@ Inductive cpc :=
 | CFl (f : fpc) (w : bool)       (* inside Flush; w: called from Wait *)
 | CWSpin                         (* Wait: blocked on inflightCond until inflight = 0 *)
 | CWGuard                        (* before wgBarrier lock *)
-| CWWait.                        (* holds the barrier, inside waitGroup.Wait *)
+| CWWait                         (* holds the barrier, inside waitGroup.Wait *)
+| CSyncRun.                      (* Sync: before lock; fn(); unlock *)
 
 Inductive bpc :=
 | BStart                                  (* goroutine created; before newTicker *)
@@ -199,6 +202,7 @@ Definition cstep (cfg : config) (s : state) (c : nat) : option state :=
     | CWSpin => if inflight s =? 0 then goto s CWGuard else None
     | CWGuard => if barrier s then None else goto (set_barrier s true) CWWait
     | CWWait => if wg s =? 0 then goto (set_barrier s false) CIdle else None
+    | CSyncRun => goto s CIdle
     end
   end.
 
@@ -210,6 +214,7 @@ Definition call_step (s : state) (c : nat) (k : call) : option state :=
       | CAdd t w => CAddLock t w
       | CFlush => CFl FEnter false
       | CWait => CFl FEnter true
+      | CSync => CSyncRun
       end))
   | _ => None
   end.
